@@ -479,7 +479,7 @@ Section TurnMain.
       end.
   Proof.
     intros Hnb HnF Hpre HD Hpost K1 K2 K3.
-    pose proof HR as (_ & R2 & R3). destruct (R2 i e Hi (le_n _)) as [Rc Rb].
+    pose proof HR as (_ & R2 & R3). destruct (R2 i e Hi (le_n _)) as [Rc Rb]. fold k in Rc, Rb.
     destruct (i2_KN _ _ _ _ I i e Hi (le_n _)) as (b & names & s0 & HDg & Hlt & Hkey).
     fold Dg in HDg. rewrite HDg in HD.
     destruct (embG_sub lower bs rootD b names s0 HD) as (body_s & en & Htree & G & Hbody).
@@ -518,6 +518,7 @@ Section TurnMain.
         subst a_s.
         assert (Hq : y_infer_quantity (YSub body_s [nm] s0) = infer_quantity (SubRecipe b [nm] s0)).
         { symmetry. apply (embed_infer_quantity en). rewrite y_embed_sub, Hbody. reflexivity. }
+        change (y_infer_quantity (YSub body_s [nm] s0)) with (y_infer_quantity body_s) in Hq.
         rewrite Hq. destruct (whole convert tol lower a (infer_quantity (SubRecipe b [nm] s0))) as [[|]|]; reflexivity.
       + apply Nat.eqb_neq in Eb.
         pose proof (count_in_two_blocks k F b0 (e_def_block e) Eb) as Hle. rewrite HblockD, Htot in Hle.
@@ -528,9 +529,11 @@ Section TurnMain.
   Lemma turn_eval : exists pre post rpre rootD rpost,
     nth_error bs (e_def_block e) = Some (pre ++ Dg :: post) /\
     nth_error F (e_def_block e) = Some (rpre ++ rootD :: rpost) /\
-    EmbG lower bs rootD Dg /\
+    EmbG lower bs rootD Dg /\ ~ In Dg pre /\ defines lower k rootD = true /\
     keepF lower e F bs = firstn (e_def_block e) bs ++ (pre ++ post) :: skipn (S (e_def_block e)) bs /\
     (forall rt, In rt (concat F) -> defines lower k rt = true -> rt = rootD) /\
+    map (filter (fun rt => negb (defines lower k rt))) F =
+      firstn (e_def_block e) F ++ (rpre ++ rpost) :: skipn (S (e_def_block e)) F /\
     fold_key convert tol lower k F =
       match can_be_inlined convert tol lower e with
       | None => None
@@ -543,14 +546,16 @@ Section TurnMain.
     destruct (finds lower i bs t F e I Hi HE pre post rpre rootD rpost Hnb HnF Hpre Hn1 Hn2 Hoth)
       as (K1 & K2 & K3 & K4 & K5).
     exists pre, post, rpre, rootD, rpost. split; [exact Hnb|]. split; [exact HnF|]. split; [exact HD|].
-    split; [exact K4|]. split.
+    split; [exact Hn1|]. split; [exact K3|]. split; [exact K4|]. split.
     { intros rt Hrt Hdef.
-      assert (Hnot : ~ In rt (concat (map (filter (fun r => negb (defines lower k r))) F))).
-      { intro H. apply in_concat_filtered in H. rewrite Hdef in H. discriminate. }
+      assert (Hnot : ~ In rt (concat (map (filter (fun r => negb (defines lower (e_key e) r))) F))).
+      { intro H. apply in_concat_filtered in H. fold k in H. rewrite Hdef in H. discriminate. }
       rewrite K5 in Hnot. rewrite (nth_error_firstn_skipn F _ _ HnF) in Hrt.
-      rewrite concat_app in Hrt, Hnot. simpl in Hrt, Hnot. rewrite !in_app_iff in Hrt, Hnot. simpl in Hrt.
-      rewrite !in_app_iff in Hrt. simpl in Hrt. destruct Hrt as [H|[[H|[H|H]]|H]]; try (exfalso; tauto).
+      rewrite concat_app in Hrt, Hnot. simpl concat in Hrt, Hnot.
+      repeat rewrite in_app_iff in Hrt. repeat rewrite in_app_iff in Hnot. simpl In in Hrt.
+      destruct Hrt as [H|[[H|[H|H]]|H]]; try (exfalso; tauto).
       symmetry. exact H. }
+    split; [exact K5|].
     exact (turn_eval_aux pre post rpre rootD rpost Hnb HnF Hpre HD Hpost K1 K2 K3).
   Qed.
 End TurnMain.
